@@ -611,7 +611,7 @@ def run(chk, args):
             for c, o in zip(part, outp):
                 judge(c, o, coq=False)
     # thorough: the exhaustive small domain, streamed; the oracle judges every case, the model / validators are
-    # evaluated in Coq on every 25th
+    # evaluated in Coq on every 50th
     if not quick and not args.replay:
         import concurrent.futures
         gen, desc = exhaustive_chunks(rng, 500000)
@@ -629,11 +629,11 @@ def run(chk, args):
                     done = futs.pop(0).result()
                     for c, o in zip(*done):
                         n_ex[0] += 1
-                        judge(c, o, coq=(n_ex[0] % 25 == 0))
+                        judge(c, o, coq=(n_ex[0] % 50 == 0))
             for f in futs:
                 for c, o in zip(*f.result()):
                     n_ex[0] += 1
-                    judge(c, o, coq=(n_ex[0] % 25 == 0))
+                    judge(c, o, coq=(n_ex[0] % 50 == 0))
         chk.count("exhaustive-cases-run", n_ex[0])
     # model + validators inside Coq
     if chk.model_ok and built is not False:
@@ -707,5 +707,5 @@ def run(chk, args):
         "with duplicated destinations. corpus/C03.json (inputs on which the code as found attached a chip twice) first. "
         "thorough: + machines <= 3x3 with <= 3 dead directed links and <= 1 dead chip x all source / sink placements with "
         "fan-out <= 2 x radius {0,20}: complete for the sizes listed as complete under coverage.exhaustive, dead-link "
-        "sets sampled uniformly for the others; the oracle judges every case, Coq every 25th. non-trivial = valid case "
+        "sets sampled uniformly for the others; the oracle judges every case, Coq every 50th. non-trivial = valid case "
         "with at least one sink; distinct by hash of the whole case")
